@@ -7,7 +7,7 @@
 (* harness.  The transcription of the implementation's iterative DFS that  *)
 (* is model-checked against (a) lives in SortImpl.tla.                     *)
 (***************************************************************************)
-EXTENDS Naturals, Sequences, FiniteSets, TLC, Json, IOUtils
+EXTENDS Naturals, Sequences, FiniteSets, TLC, Json, IOUtils, SequencesExt
 
 Has2(r, f) == f \in DOMAIN r
 SeqSet(s) == {s[i] : i \in DOMAIN s}
